@@ -21,9 +21,14 @@ UNIT = 2.0 ** -6
 class AtomMeasure(LevyMeasure):
     """atoms: list of (k, w): an atom of integer weight w at position k * UNIT (k odd)"""
 
-    def __init__(self, atoms, finite_variation=True, bg_index=0.5, support=(-np.inf, np.inf)):
-        self.atoms = sorted((int(k), int(w)) for k, w in atoms)
-        self.pos = np.array([k * UNIT for k, _ in self.atoms])
+    def __init__(self, atoms, finite_variation=True, bg_index=0.5, support=(-np.inf, np.inf), unit=UNIT):
+        """unit=None: the atoms' first entries are float positions, not multiples of UNIT"""
+        if unit is None:
+            self.atoms = sorted((float(k), int(w)) for k, w in atoms)
+            self.pos = np.array([k for k, _ in self.atoms])
+        else:
+            self.atoms = sorted((int(k), int(w)) for k, w in atoms)
+            self.pos = np.array([k * unit for k, _ in self.atoms])
         self.w = np.array([float(w) for _, w in self.atoms])
         self._fv = finite_variation
         self._bg = bg_index
@@ -79,8 +84,8 @@ class AtomLevyModel(LevyModel):
     """The REAL LevyModel / LevyTriplet / truncate / set_representation over an atomic measure."""
 
     def __init__(self, atoms, sigma=0.0, a=0.0, representation=LevyRepresentation.ONEONE, finite_variation=True,
-                 bg_index=0.5, support=(-np.inf, np.inf)):
-        nu = AtomMeasure(atoms, finite_variation=finite_variation, bg_index=bg_index, support=support)
+                 bg_index=0.5, support=(-np.inf, np.inf), unit=UNIT):
+        nu = AtomMeasure(atoms, finite_variation=finite_variation, bg_index=bg_index, support=support, unit=unit)
         super().__init__(ModelType.HEM, LevyTriplet(a=a, sigma=sigma, nu=nu, representation=representation), _NoCumulant())
 
     def __repr__(self):
@@ -116,9 +121,9 @@ class TableCopula(LevyCopula):
     selects the atoms whose i-th coordinate lies in the top part of the positive side carrying marginal mass u_i
     (u_i = +inf: the whole positive side), u_i < 0 symmetrically, u_i = 0 nothing."""
 
-    def __init__(self, joint_atoms, dimension):
+    def __init__(self, joint_atoms, dimension, unit=UNIT):
         self.d = dimension
-        self.pos = np.array([list(k) for k, _ in joint_atoms], dtype=float) * UNIT      # (n, d)
+        self.pos = np.array([list(k) for k, _ in joint_atoms], dtype=float) * (1.0 if unit is None else unit)  # (n, d)
         self.w = np.array([float(w) for _, w in joint_atoms])
         self.tables = []
         for i in range(dimension):
@@ -166,15 +171,17 @@ class TableCopula(LevyCopula):
         return sgn * float(np.sum(self.w[sel]))
 
 
-def atom_copula_model(joint_atoms, dimension, finite_variation=True, sigma=0.0):
+def atom_copula_model(joint_atoms, dimension, finite_variation=True, sigma=0.0, unit=UNIT, drifts=None, representations=None):
     """REAL LevyCopulaModel over atomic margins and their exact table copula."""
     models = []
     for i in range(dimension):
         marg = {}
         for k, w in joint_atoms:
             marg[k[i]] = marg.get(k[i], 0) + w
-        models.append(AtomLevyModel(sorted(marg.items()), sigma=sigma, finite_variation=finite_variation))
-    return LevyCopulaModel(models=models, copula=TableCopula(joint_atoms, dimension))
+        models.append(AtomLevyModel(sorted(marg.items()), sigma=sigma, finite_variation=finite_variation, unit=unit,
+                                    a=(drifts[i] if drifts else 0.0),
+                                    representation=(representations[i] if representations else LevyRepresentation.ONEONE)))
+    return LevyCopulaModel(models=models, copula=TableCopula(joint_atoms, dimension, unit=unit))
 
 
 def joint_atoms_in_box(lo, hi, dimension, rng, n_atoms, wmax=5):
